@@ -581,7 +581,7 @@ theorem stream_roundtrip (g : Name) (c : CName) (ts bs : List (List Nat)) (hl : 
     rw [e1] at this
     exact this
   · unfold RUnd
-    simp only [choose, hout false, hr2]
+    simp only [readerEnc, hout false, hr2]
     simp
   · rw [hfe, hout true, hout false]
 
